@@ -6,6 +6,7 @@
 //   case <k> <kind> n=<routers> edges=<m>
 //   node n<idx> <hash> <name>   ids below are n<idx> for these, raw decimal hashes otherwise (0 = none)
 //   ev rup <i> | ev rdown <i> | ev up <i> <j> | ev dead <i> <j> | ev fetch <i> <j>
+//   ev snap <j>                 store j's current advertisement;  ev deliver <i> <j>: i processes the stored one
 //   obs <i> <dirty 0|1|x> nb=<j,j,..|-> rib=<entry;entry..|-> adv=<d/nh/cost/other;..|-> ent=<d/cost/nh;..|->
 //        entry = d/nh1/l1/nh2/l2/dirty/h=c,h=c..      (everything sorted by key)
 //   chk <r>        the harness claims >= r complete rounds since the last topology change (runner verifies)
@@ -71,6 +72,51 @@ type world struct {
 	nbr    []map[int]bool
 	seq    []uint64
 	fail   string
+	// round accounting, mirrored by the runner (greedy: a round ends as soon as every ordered pair was served)
+	evc        int              // number of ev lines so far
+	pending    map[[2]int]bool  // pairs not yet served in the current round
+	rounds     int              // complete rounds since the last topology change
+	roundStart int              // evc at the start of the current round
+	slots      map[int]snapshot // latest stored advertisement per sender
+	delivered  bool             // some stored advertisement was delivered so far
+	unclean    bool             // the history so far is not a loss-free history of atomic fetches followed by valid rounds
+}
+
+func (w *world) topoChanged() {
+	if w.delivered {
+		w.unclean = true // a Deliver before a topology change belongs to the history part
+	}
+	w.resetRounds()
+}
+
+type snapshot struct {
+	adv   *tlv.Advertisement
+	stamp int
+}
+
+func (w *world) resetRounds() {
+	w.rounds = 0
+	w.roundStart = w.evc
+	w.pending = map[[2]int]bool{}
+	for _, p := range w.pairs() {
+		w.pending[p] = true
+	}
+}
+
+// a transfer for pair (i, j) was issued
+func (w *world) served(i, j int) {
+	delete(w.pending, [2]int{i, j})
+	if len(w.pending) == 0 {
+		ps := w.pairs()
+		if len(ps) == 0 {
+			return
+		}
+		w.rounds++
+		w.roundStart = w.evc
+		for _, p := range ps {
+			w.pending[p] = true
+		}
+	}
 }
 
 func newRouter(name enc.Name) *dvp.Router {
@@ -206,40 +252,54 @@ func (w *world) dirtyOf(i int) string {
 
 func (w *world) evRup(i int) {
 	fmt.Fprintf(w.w, "ev rup %s\n", w.id(w.hash[i]))
+	w.evc++
 	if w.rt[i] == nil {
 		w.rt[i] = newRouter(w.names[i])
 		w.nbr[i] = map[int]bool{}
 		w.settle()
 		w.seq[i] = w.rt[i].Vf18AdvertSeq()
+		w.topoChanged()
 	}
 	w.obs(i, "x")
 }
 
 func (w *world) evRdown(i int) {
 	fmt.Fprintf(w.w, "ev rdown %s\n", w.id(w.hash[i]))
+	w.evc++
+	w.unclean = true
 	if w.rt[i] != nil {
 		w.settle()
 		w.rt[i].Vf18StopNfdc()
 		w.rt[i] = nil
 		w.nbr[i] = map[int]bool{}
+		w.topoChanged()
 	}
 }
 
 func (w *world) evUp(i, j int) {
 	fmt.Fprintf(w.w, "ev up %s %s\n", w.id(w.hash[i]), w.id(w.hash[j]))
+	w.evc++
 	if w.rt[i] == nil {
 		return
 	}
 	w.rt[i].Vf18AddNeighbor(w.names[j])
-	w.nbr[i][j] = true
+	if !w.nbr[i][j] {
+		w.nbr[i][j] = true
+		w.topoChanged()
+	}
 	w.settle()
 	w.obs(i, w.dirtyOf(i))
 }
 
 func (w *world) evDead(i, j int) {
 	fmt.Fprintf(w.w, "ev dead %s %s\n", w.id(w.hash[i]), w.id(w.hash[j]))
+	w.evc++
+	w.unclean = true
 	if w.rt[i] == nil {
 		return
+	}
+	if w.nbr[i][j] {
+		defer w.topoChanged()
 	}
 	// the harness owns the clock: every neighbour was just heard from, except the victim
 	now := time.Now()
@@ -259,6 +319,8 @@ func (w *world) evDead(i, j int) {
 
 func (w *world) evFetch(i, j int) {
 	fmt.Fprintf(w.w, "ev fetch %s %s\n", w.id(w.hash[i]), w.id(w.hash[j]))
+	w.evc++
+	w.served(i, j)
 	if w.rt[i] == nil {
 		return
 	}
@@ -267,6 +329,53 @@ func (w *world) evFetch(i, j int) {
 		w.settle()
 	}
 	w.obs(i, w.dirtyOf(i))
+}
+
+// store router j's current advertisement (as a neighbour would receive it) for a later, stale delivery
+func (w *world) evSnap(j int) {
+	if w.rt[j] == nil {
+		return
+	}
+	fmt.Fprintf(w.w, "ev snap %s\n", w.id(w.hash[j]))
+	w.evc++
+	w.slots[j] = snapshot{w.advertOf(j), w.evc}
+}
+
+// router i processes the stored advertisement of j (advertDataHandler + ribUpdate on an older advertisement)
+func (w *world) evDeliver(i, j int) {
+	sn, ok := w.slots[j]
+	if !ok {
+		return
+	}
+	fmt.Fprintf(w.w, "ev deliver %s %s\n", w.id(w.hash[i]), w.id(w.hash[j]))
+	w.evc++
+	w.delivered = true
+	if sn.stamp < w.roundStart {
+		w.unclean = true
+		w.resetRounds() // older than the round: the runner starts counting afresh as well
+	} else {
+		w.served(i, j)
+	}
+	if w.rt[i] == nil {
+		return
+	}
+	if w.nbr[i][j] {
+		w.rt[i].Vf18RibUpdate(w.names[j], sn.adv)
+		w.settle()
+	}
+	w.obs(i, w.dirtyOf(i))
+}
+
+// one transfer for the pair: atomic, or a stale advertisement generated earlier in the current round
+func (w *world) xfer(i, j int) {
+	if w.r.Intn(4) == 0 {
+		w.evSnap(w.r.Intn(w.n))
+	}
+	if sn, ok := w.slots[j]; ok && sn.stamp >= w.roundStart && w.r.Intn(5) < 2 {
+		w.evDeliver(i, j)
+	} else {
+		w.evFetch(i, j)
+	}
 }
 
 // ordered adjacent pairs (i has j in its neighbour table and j is up)
@@ -304,10 +413,10 @@ func (w *world) round() {
 	ps := w.pairs()
 	w.r.Shuffle(len(ps), func(a, b int) { ps[a], ps[b] = ps[b], ps[a] })
 	for _, p := range ps {
-		w.evFetch(p[0], p[1])
+		w.xfer(p[0], p[1])
 		if w.r.Intn(8) == 0 {
 			q := ps[w.r.Intn(len(ps))]
-			w.evFetch(q[0], q[1])
+			w.xfer(q[0], q[1])
 		}
 	}
 }
@@ -351,7 +460,14 @@ func (w *world) someFetches(k int) {
 			return
 		}
 		p := ps[w.r.Intn(len(ps))]
-		w.evFetch(p[0], p[1])
+		switch w.r.Intn(6) {
+		case 0:
+			w.evSnap(p[1])
+		case 1:
+			w.evDeliver(p[0], p[1]) // whatever is stored, however old
+		default:
+			w.evFetch(p[0], p[1])
+		}
 	}
 }
 
@@ -380,12 +496,14 @@ func (w *world) converge(clean bool) {
 	md := w.maxDist()
 	rounds := 16 + md + 1
 	kind := "chk"
-	if clean {
+	if clean && !w.unclean {
 		rounds = md + 1
 		kind = "chkclean"
 	}
-	for k := 0; k < rounds; k++ {
-		w.round()
+	if len(w.pairs()) > 0 {
+		for w.rounds < rounds {
+			w.round()
+		}
 	}
 	w.obsAll()
 	fmt.Fprintf(w.w, "%s %d\n", kind, rounds)
@@ -513,7 +631,7 @@ func allConnected(n int) [][][2]int {
 func runCase(t *testing.T, out *bufio.Writer, r *rand.Rand, k int, kind string, n int, edges [][2]int, faults int) string {
 	fail := ""
 	synctest.Test(t, func(t *testing.T) {
-		w := &world{t: t, w: out, r: r, n: n, byHash: map[uint64]int{}}
+		w := &world{t: t, w: out, r: r, n: n, byHash: map[uint64]int{}, slots: map[int]snapshot{}, pending: map[[2]int]bool{}}
 		// random router names: the hash order (the tie-break key) is unrelated to the index order
 		for len(w.names) < n {
 			nm, _ := enc.NameFromStr(fmt.Sprintf("/net/r%d", r.Intn(1000000)))
@@ -645,7 +763,7 @@ func TestReplay(t *testing.T) {
 	out := bufio.NewWriterSize(f, 1<<20)
 	defer out.Flush()
 	synctest.Test(t, func(t *testing.T) {
-		w := &world{t: t, w: out, byHash: map[uint64]int{}}
+		w := &world{t: t, w: out, byHash: map[uint64]int{}, slots: map[int]snapshot{}, pending: map[[2]int]bool{}}
 		idx := func(s string) int {
 			k, _ := strconv.Atoi(strings.TrimPrefix(s, "n"))
 			return k
@@ -694,6 +812,10 @@ func TestReplay(t *testing.T) {
 					w.evDead(idx(p[2]), idx(p[3]))
 				case "fetch":
 					w.evFetch(idx(p[2]), idx(p[3]))
+				case "snap":
+					w.evSnap(idx(p[2]))
+				case "deliver":
+					w.evDeliver(idx(p[2]), idx(p[3]))
 				}
 			case "chk", "chkclean":
 				start()
